@@ -11,6 +11,8 @@ ASSUME = [
     "queries are judged when the current slot has been filled (the way the processor and the detector use the ring); "
     "'recent' is judged while the previous frame is still held (capacity >= 2, or capacity 1 before the slot is refilled)",
     "a Move is only issued after the current slot was filled (API usage); Reset / SetAsOldest at any time",
+    "concurrent mode: judged only while FrameLoop carries a lock of its own (a sync.* field); the producer writes nothing but "
+    "the slot Current() returned, as the frame loop does; capacity >= 2; sampled Go schedules, not all interleavings",
 ]
 
 
@@ -60,6 +62,21 @@ def run(ctx):
                 timeout=1800, heap="6g")
     if not d["ok"]:
         raise vlib.Infra("FrameLoop.tla design check failed:\n" + vlib.tail_err(d["out"]))
+    # the ring under concurrent use (its own mutex): every interleaving of a producer that fills Current() and moves
+    # with CopyRecent calls, copy made under the lock (the pinned code) - and the self-test without
+    conc_design = []
+    for (cap, mtag, calls) in ([(2, 5, 3), (3, 5, 2)] if tier == "quick" else [(2, 7, 4), (3, 7, 3), (4, 8, 3)]):
+        consts = dict(Cap=cap, MaxTag=mtag, Calls=calls, LockedCopy=True)
+        dc = ctx.tlc("conc_design_%d" % cap, "RingConc",
+                     mkcfg(spec="Spec", constants=consts, invariants=["TypeOK", "WholeFrame", "RecentAtSomeMoment", "Mutex"],
+                           properties=["Terminates"], deadlock=False), timeout=900, heap="4g")
+        if not dc["ok"]:
+            raise vlib.Infra("RingConc.tla (copy under the lock) design check failed:\n" + vlib.tail_err(dc["out"]))
+        conc_design.append(dict(cap=cap, MaxTag=mtag, Calls=calls, distinct=dc.get("distinct")))
+    du = ctx.tlc("conc_design_unlocked", "RingConc",
+                 mkcfg(spec="Spec", constants=dict(Cap=2, MaxTag=5, Calls=3, LockedCopy=False), invariants=["WholeFrame"], deadlock=False),
+                 timeout=300, heap="2g")
+    ctx.notes.append("self-test: RingConc.tla with the copy made after the lock is released violates WholeFrame: %s" % (not du["ok"]))
     scripts, graphs = [], []
     caps = [1, 2, 3] if tier == "quick" else [1, 2, 3, 4, 5]
     for c in caps:
@@ -114,7 +131,7 @@ def run(ctx):
     coverage = dict(states=d.get("distinct", 0), transitions=d.get("generated", 0),
                     traces_validated_against_impl=len(scripts), samples=[dict(script=scripts[0], trace=events[:6])],
                     exhaustive=True, design=dict(MaxCap=mc, MaxTag=mt), graphs=graphs, cover_scripts=ncover,
-                    random_scripts=nrand, concurrent_scripts=nconc,
+                    random_scripts=nrand, concurrent_design=conc_design, concurrent_scripts=nconc,
                     concurrent_copyrecent_calls=sum(e.get("calls", 0) for e in events if e["ev"] == "conc"), events_judged=nev, marks=marks, resets=resets, scripts_that_wrap=wraps,
                     evaluations=len(scripts), distinct_nontrivial=distinct,
                     rule="transition cover of RingReplay graphs (cap 1..%d) + seeded random op sequences (cap up to 64); "
